@@ -43,6 +43,15 @@ Theorem C02_remove_preserves_trace : forall bi ns p R,
 Proof. exact remove_preserves_trace. Qed.
 Print Assumptions C02_remove_preserves_trace.
 
+(* the same with the doctest examples of every docstring (module, def, class, method bodies; run after the module in a
+   copy of its final namespace, as the doctest module runs them): "no import whose binding is read anywhere - doctests
+   included - may be removed" is exactly the hypothesis; then the whole trace, doctest reads included, is unchanged *)
+Theorem C02_remove_preserves_trace_doctests : forall bi ns p R,
+  (forall ln n l i, In (ln, n, Bound (BImp l i)) (pysem_doc bi ns p) -> R l i = false) ->
+  pysem_doc bi ns (remove_top R p) = pysem_doc bi ns p.
+Proof. exact remove_preserves_trace_doc. Qed.
+Print Assumptions C02_remove_preserves_trace_doctests.
+
 (* block_render_preserves_env_partial: re-rendering a compatible import block keeps what every name denotes and
    what is loaded *)
 Theorem C02_block_render_preserves_env_partial : forall sep B, Forall wf_import B -> compatible B ->
@@ -83,6 +92,19 @@ Theorem C02_unused_sound_refuted_stale_key :
   ~ unused_sound_at [SImport 1 [([78; 79], None)]; SImportFrom 2 [80] [(81, Some 78)]; SExpr 3 (ELoad 78 [79])].
 Proof. unfold unused_sound_at. intro H. apply (H 2%nat ([80; 81], [78])) with (ln := 3%nat) (n := 78); vm_compute; auto. Qed.
 Print Assumptions C02_unused_sound_refuted_stale_key.
+(* F10-classcomp on the unused side:  from m import x ; class C: x = 1 ; y = [x for w in 1]  - the comprehension
+   reads the GLOBAL x *)
+Theorem C02_unused_sound_refuted_classcomp :
+  ~ unused_sound_at [SImportFrom 1 [80] [(82, None)];
+                     SClass 2 83 [] [] [] [SAssign 3 [TName 82] (EOp []); SAssign 4 [TName 84] (EComp [Gen (EOp []) (TName 85) []] [ELoad 82 []])]].
+Proof. unfold unused_sound_at. intro H. apply (H 1%nat ([80; 82], [82])) with (ln := 4%nat) (n := 82); vm_compute; auto. Qed.
+Print Assumptions C02_unused_sound_refuted_classcomp.
+(* F10-firstiter on the unused side:  [1 for c in [(lambda: c.x)]] ; from m import c *)
+Theorem C02_unused_sound_refuted_firstiter :
+  ~ unused_sound_at [SExpr 1 (EComp [Gen (EOp [ELambda [] [] (ELoad 86 [87])]) (TName 86) []] [EOp []]);
+                     SImportFrom 2 [80] [(86, None)]].
+Proof. unfold unused_sound_at. intro H. apply (H 2%nat ([80; 86], [86])) with (ln := 1%nat) (n := 86); vm_compute; auto. Qed.
+Print Assumptions C02_unused_sound_refuted_firstiter.
 (* two items with the same (line, import):  import a, a ; a *)
 Theorem C02_unused_sound_refuted_duplicate_item :
   ~ unused_sound_at [SImport 1 [([50], None); ([50], None)]; SExpr 2 (ELoad 50 [])].
